@@ -16,7 +16,7 @@ META = dict(
     level_note="Trusted base: scipy.linalg.expm, Gauss-Legendre quadrature validated against mpmath.quad in-run, literature beta coefficients, and (for the real grids) ekore's pure-QCD anomalous dimensions as the QCD side of the comparison, which is what the property states. The e2e part trusts nothing but the two real solves.",
     rule="kernel case = (sector, grid source, order, nf, N or random tower, coupling steps); e2e case = (order, nf, alpha_em, K); non-trivial = kernel differs from the identity by > 1e-2 and at least 2 coupling steps, e2e: QCD operator differs from the identity by > 1e-2",
     min_nontrivial=200,
-    required_hits=["kernel_singlet", "kernel_valence", "kernel_ns", "kernel_real_grids", "e2e_ladder", "oracle_crosscheck_mp"],
+    required_hits=["kernel_singlet", "kernel_valence", "kernel_ns", "kernel_real_grids", "kernel_via_quad_ker", "e2e_ladder", "oracle_crosscheck_mp"],
     max_inconclusive_frac=0.05,
 )
 
@@ -62,6 +62,27 @@ def _steps(rng, it):
     return a0, a1, as_list, ah
 
 
+_QKB = []
+
+
+def _quad_ker_base():
+    """The real quad_ker module and its QuadKerBase with the contour point replaced by a chosen N."""
+    if not _QKB:
+        import importlib
+
+        qk = importlib.import_module("eko.evolution_operator.quad_ker")
+
+        class Base(qk.QuadKerBase):
+            def __init__(self, n, mode0):
+                super().__init__(0.5, True, -1.0, mode0)
+                self._n = n
+
+            n = property(lambda self: self._n)
+
+        _QKB.extend([qk, Base])
+    return _QKB
+
+
 def _relm(K, R):
     return float(np.linalg.norm(K - R) / np.linalg.norm(R))
 
@@ -77,14 +98,17 @@ def _kernel_chunk(arg):
     rng = np.random.default_rng([seed, 14, cid])
     out = []
 
-    def rec(sector, src, order, nf, it, dev, nontrivial, wit):
-        out.append(dict(sector=sector, src=src, order=order, nf=nf, it=it, dev=dev, nontrivial=bool(nontrivial), wit=wit, cid=cid))
+    def rec(sector, src, order, nf, it, dev, nontrivial, wit, mech=None):
+        out.append(dict(sector=sector, src=src, order=order, nf=nf, it=it, dev=dev, nontrivial=bool(nontrivial), wit=wit, cid=cid, mech=mech))
 
     for i in range(nrand + nreal):
         real = i >= nrand
         order = (int(rng.integers(1, 5)), int(rng.integers(1, 3)))
         if real and order[0] == 4 and rng.random() < 0.7:
             order = (int(rng.integers(1, 4)), order[1])  # the N3LO grids are slow in interpreter mode
+        forced = real and i == nrand  # ... but every chunk has one N3LO case, alternating between the two N3LO variants
+        if forced:
+            order = (4, order[1])
         nf = int(rng.integers(3, 7))
         if real and order[0] == 4:
             nf = min(nf, 5)  # ekore refuses nf=6 at N3LO ("nf=6 is not available at N3LO"): a clean refusal, nothing to compare
@@ -94,8 +118,13 @@ def _kernel_chunk(arg):
         n0 = order[0]
         if real:
             N = complex(rng.uniform(1.2, 6.0), rng.uniform(-4.0, 4.0))
-            var = (0, 0, 0, 0, 0, 0, 0)
             fh = bool(rng.integers(2))
+            if forced:
+                fh = cid % 2 == 1
+            # N3LO variation indices (valid for both variants); only matter at order 4
+            var = tuple(int(x) for x in rng.integers(0, 3, 4)) + ((tuple(int(x) for x in rng.integers(0, 3, 3))) if fh else (0, 0, 0))
+            if rng.random() < 0.4:
+                var = (0, 0, 0, 0, 0, 0, 0)
             gs = ad_us.gamma_singlet((n0, 0), N, nf, var, fh)
             gp = ad_us.gamma_ns((n0, 0), 10101, N, nf, var, fh)
             gm = ad_us.gamma_ns((n0, 0), 10201, N, nf, var, fh)
@@ -103,7 +132,7 @@ def _kernel_chunk(arg):
             G4 = ad_us.gamma_singlet_qed(order, N, nf, var, fh)
             G2 = ad_us.gamma_valence_qed(order, N, nf, var, fh)
             src = "ekore"
-            base = dict(N=N, use_fhmruvv=fh)
+            base = dict(N=N, use_fhmruvv=fh, n3lo_ad_variation=list(var))
         else:
             gs = po.tower(rng, n0)
             gp, gm, gv = (po.tower(rng, n0)[:, 0, 0] for _ in range(3))
@@ -121,7 +150,15 @@ def _kernel_chunk(arg):
         # ---- singlet 4x4
         K = qed_s.dispatcher(order, EM.ITERATE_EXACT, G4.copy(), as_list, ah, nf, it, (10, 0))
         R = expected_singlet(gs, gp, as_list, ah[:, 0], bet)
-        rec("singlet", src, order, nf, it, _relm(K, R), it >= 2 and np.linalg.norm(R - np.eye(4)) > 1e-2, dict(base, gamma=G4.tolist(), K=K.tolist(), expected=R.tolist()))
+        # known mechanism (see known_findings.json, C30/singlet/as4/sigma-delta): the N3LO FHMRUVV Sigma_Delta entry is
+        # gamma_ns+ at the *qq* variation slot. Recognised only if the kernel reproduces exactly that.
+        R_alt = None
+        if real and n0 == 4 and fh and var[3] != var[4]:
+            v_alt = var[:4] + (var[3],) + var[5:]
+            R_alt = expected_singlet(gs, ad_us.gamma_ns((n0, 0), 10101, N, nf, v_alt, fh), as_list, ah[:, 0], bet)
+        dev = _relm(K, R)
+        mech = "SdeltaSdelta/qq-vs-nsp-variation" if (dev > TOL and R_alt is not None and _relm(K, R_alt) <= TOL) else None
+        rec("singlet", src, order, nf, it, dev, it >= 2 and np.linalg.norm(R - np.eye(4)) > 1e-2, dict(base, gamma=G4.tolist(), K=K.tolist(), expected=R.tolist()), mech)
         # ---- valence 2x2
         K = qed_v.dispatcher(order, EM.ITERATE_EXACT, G2.copy(), as_list, ah, nf, it, (10, 0))
         R = po.qcd_step_product(G2[1:, 0] if not real else np.array([np.diag([gv[k], gm[k]]) for k in range(n0)]), as_list, ah[:, 0], bet)
@@ -130,7 +167,7 @@ def _kernel_chunk(arg):
         modes = ((10102, gp), (10103, gp), (10202, gm), (10203, gm))
         mode, gq = modes[int(rng.integers(4))]
         if real:
-            g1 = ad_us.gamma_ns_qed(order, mode, N, nf, (0, 0, 0, 0, 0, 0, 0), base["use_fhmruvv"])
+            g1 = ad_us.gamma_ns_qed(order, mode, N, nf, var, base["use_fhmruvv"])
         else:
             g1 = np.zeros((n0 + 1, order[1] + 1), dtype=complex)
             g1[:, 1:] = rng.normal(size=g1[:, 1:].shape) * 5.0
@@ -142,6 +179,36 @@ def _kernel_chunk(arg):
         k2 = qed_ns.fixed_alphaem_exact(order, g1.copy(), as_list[-1], as_list[0], 0.0, nf, mu2f, mu2t)
         dev = max(abs(k1 - ref), abs(k2 - ref)) / (abs(ref) * (1 + abs(lg)))
         rec("ns", src, order, nf, it, float(dev), abs(ref - 1) > 1e-2, dict(base, mode=mode, gamma=g1.tolist(), mu2_from=mu2f, mu2_to=mu2t, K_steps=k1, K_fixed=k2, expected=ref))
+        if not real:
+            continue
+        # ---- the same three sectors the way the runner reaches them: eko.evolution_operator.quad_ker.quad_ker_qed
+        # at a fixed Mellin moment (QuadKerBase with its contour point replaced by N), a_em = 0, same steps and flags
+        qk, Base = _quad_ker_base()
+        from eko import scale_variations as sv
+
+        def via(m0, m1):
+            return complex(qk.quad_ker_qed(Base(N, m0), order, m0, m1, EM.ITERATE_EXACT, as_list, mu2f, mu2t, ah, False, nf, 0.0, it, 10, sv.Modes.unvaried, False, var, fh))
+
+        Rs = expected_singlet(gs, gp, as_list, ah[:, 0], bet)
+        lab = {21: GLU, 22: PHO, 100: SIG, 101: SDEL}
+        prs = [(a, b) for a in lab for b in lab]
+        # N3LO grids are slow in interpreter mode: the QCD block, Sigma_Delta and one photon entry
+        sel = prs if order[0] < 4 else [(21, 21), (21, 100), (100, 21), (100, 100), (101, 101), (22, 22), prs[int(rng.integers(16))]]
+        got = {(a, b): via(a, b) for a, b in sel}
+        dev = max(abs(got[a, b] - Rs[lab[a], lab[b]]) for a, b in sel) / np.linalg.norm(Rs)
+        mech = None
+        if dev > TOL and R_alt is not None and max(abs(got[a, b] - R_alt[lab[a], lab[b]]) for a, b in sel) / np.linalg.norm(Rs) <= TOL:
+            mech = "SdeltaSdelta/qq-vs-nsp-variation"
+        rec("singlet", "ekore-via-quad_ker", order, nf, it, float(dev), it >= 2, dict(base, entries=sel, got=[got[k] for k in sel], expected=Rs.tolist(), mu2_from=mu2f, mu2_to=mu2t), mech)
+        Rv = po.qcd_step_product(np.array([np.diag([gv[k], gm[k]]) for k in range(n0)]), as_list, ah[:, 0], bet)
+        lv = {10200: 0, 10204: 1}
+        prs = [(a, b) for a in lv for b in lv]
+        sel = prs if order[0] < 4 else [prs[int(rng.integers(4))]]
+        dev = max(abs(via(a, b) - Rv[lv[a], lv[b]]) for a, b in sel) / np.linalg.norm(Rv)
+        rec("valence", "ekore-via-quad_ker", order, nf, it, float(dev), it >= 2, dict(base, entries=sel, expected=Rv.tolist(), mu2_from=mu2f, mu2_to=mu2t))
+        kq = via(mode, 0)
+        dev = abs(kq - ref) / (abs(ref) * (1 + abs(lg)))
+        rec("ns", "ekore-via-quad_ker", order, nf, it, float(dev), abs(ref - 1) > 1e-2, dict(base, mode=mode, mu2_from=mu2f, mu2_to=mu2t, K=kq, expected=ref))
     return out
 
 
@@ -151,13 +218,16 @@ E2E_CFG = {
     4: dict(init=(1.65, 4), mugrid=((3.0, 4),)),
     5: dict(init=(5.0, 5), mugrid=((20.0, 5),)),
     45: dict(init=(2.0, 4), mugrid=((8.0, 5),)),  # crosses the bottom threshold: two segments + matching
+    # the same with the bottom matching scale at 1.5 m_b: the a_s matching is non-trivial already at NLO, so the
+    # coupling steps of the QED and QCD operators only agree if both resolve the boundary to the same patch
+    451: dict(init=(2.0, 4), mugrid=((10.0, 5),), ratios=(1.0, 1.5, 1.0)),
 }
 
 
 def _solve(arg):
     order, nfkey, aem, K = arg
     cfg = E2E_CFG[nfkey]
-    th = wl.raw_theory(order=order, alphaem=aem if order[1] > 0 else 0.007496252)
+    th = wl.raw_theory(order=order, alphaem=aem if order[1] > 0 else 0.007496252, ratios=cfg.get("ratios", (1.0, 1.0, 1.0)))
     op = wl.raw_operator(init=cfg["init"], mugrid=cfg["mugrid"], xgrid=(1e-2, 0.1, 1.0), method="iterate-exact", iterations=K, degree=1)
     out = wl.solve(th, op)
     ((E, err),) = out.values()
@@ -168,9 +238,9 @@ def _solve(arg):
 def _e2e(ck):
     AEMS = [1e-4, 1e-6, 1e-8]
     if ck.quick:
-        ladders = [((2, 4), [10, 40])]
+        ladders = [((2, 4), [10, 40]), ((2, 451), [10, 40])]
     else:
-        ladders = [((2, 3), [10, 40, 160]), ((2, 4), [10, 40, 160]), ((2, 5), [10, 40, 160]), ((2, 45), [10, 40, 160]), ((3, 4), [10, 40])]
+        ladders = [((2, 3), [10, 40, 160]), ((2, 4), [10, 40, 160]), ((2, 5), [10, 40, 160]), ((2, 45), [10, 40, 160]), ((2, 451), [10, 40, 160]), ((3, 45), [10, 40]), ((3, 4), [10, 40])]
     items = []
     for (n, nfk), Ks in ladders:
         for K in Ks:
@@ -272,11 +342,13 @@ def run(ck):
             ck.hit(HITS[r["sector"]])
             if r["src"] == "ekore":
                 ck.hit("kernel_real_grids")
+            if r["src"] == "ekore-via-quad_ker":
+                ck.hit("kernel_via_quad_ker")
             if np.isfinite(r["dev"]) and r["dev"] <= TOL:
                 ck.ok()
             else:
                 ck.violation(
-                    f"C14/kernel-{r['sector']}/{r['src']}/order{o[0]}{o[1]}",
+                    f"C14/kernel-{r['sector']}/order{o[0]}x/{r['mech']}" if r.get("mech") else f"C14/kernel-{r['sector']}/{r['src']}/order{o[0]}{o[1]}",
                     f"QED {r['sector']} kernel at a_em=0 ({r['src']} grid, order {tuple(o)}, {r['it']} steps) differs from the QCD kernel over the same steps by {r['dev']:.3e} > {TOL}",
                     dict(r["wit"], rel_dev=r["dev"], tol=TOL),
                 )
